@@ -146,6 +146,10 @@ ActClass(a) ==          \* m = "x": no sub-class
     [] OTHER -> [k |-> "part", c |-> "x", m |-> "x"]
 
 \* ------------------------------------------------------------------ IMPL layer (what the code does today)
+\* Defects of the pinned tree transcribed below; add the name here when the corresponding fix has landed, so that the Impl
+\* layer keeps describing the code:  "yearpad" (years < 1000 written zero-padded), "frac" (fractional seconds skipped before
+\* the offset is split off), "boolrev" (bool refused as a revision).
+ImplFixed == {}
 Opaque(n) == << <<9, n>> >>
 \* CorePropertiesPart.default: title, last_modified_by, revision 1, modified = now
 ImplDefault(now) ==
@@ -159,14 +163,14 @@ ImplXsd(t) == [t EXCEPT !.xsd = \A p \in DateProps : t.date[p].w]
 
 \* _parse_W3CDTF_to_datetime: strptime on the first 19 characters with four templates, the remainder is an offset
 \* only when it is exactly 6 characters long and matches [+-]dd:dd (else ValueError -> None); otherwise it is ignored.
-RestLen(v) == (IF v.f > 0 THEN v.f + 1 ELSE 0) + (CASE v.tz = "none" -> 0 [] v.tz = "Z" -> 1 [] OTHER -> 6)
+RestLen(v) == (IF v.f > 0 /\ "frac" \notin ImplFixed THEN v.f + 1 ELSE 0) + (CASE v.tz = "none" -> 0 [] v.tz = "Z" -> 1 [] OTHER -> 6)
 ImplLexRead(v) ==
   CASE v.g = "y"   -> [e |-> FALSE, r |-> [has |-> TRUE, y |-> v.y, m |-> 1, d |-> 1, H |-> 0, M |-> 0, S |-> 0]]
     [] v.g = "ym"  -> [e |-> FALSE, r |-> [has |-> TRUE, y |-> v.y, m |-> v.m, d |-> 1, H |-> 0, M |-> 0, S |-> 0]]
     [] v.g = "ymd" -> [e |-> FALSE, r |-> [has |-> TRUE, y |-> v.y, m |-> v.m, d |-> v.d, H |-> 0, M |-> 0, S |-> 0]]
     [] v.g = "hm"  -> [e |-> FALSE, r |-> NoDate]                                            \* no template matches
     [] OTHER       -> IF RestLen(v) # 6 THEN [e |-> FALSE, r |-> Trunc(v)]                    \* remainder ignored
-                      ELSE IF v.f > 0 \/ v.tz # "off" THEN [e |-> FALSE, r |-> NoDate]       \* ".1234Z", ".12345": not an offset -> None
+                      ELSE IF (v.f > 0 /\ "frac" \notin ImplFixed) \/ v.tz # "off" THEN [e |-> FALSE, r |-> NoDate]       \* ".1234Z", ".12345": not an offset -> None
                       ELSE IF ToUtc(v).ok THEN [e |-> FALSE, r |-> ToUtc(v).v]
                       ELSE [e |-> TRUE, r |-> NoDate]                                        \* OverflowError escapes the getter
 \* schema validity of a lexical form in its element (libxml2: gYear | gYearMonth | date | dateTime for created/modified)
@@ -184,12 +188,12 @@ ImplStep(s, a, now) ==
     [] a.op = "SetDate" ->
          IF a.kind # "datetime" THEN [out |-> "ValueError", t |-> s1]
          \* value.strftime("%Y-%m-%dT%H:%M:%SZ"): glibc %Y does not zero-pad, the reader's strptime %Y needs four digits
-         ELSE IF a.v.y < 1000 THEN [out |-> "ok", t |-> ImplXsd([s1 EXCEPT !.date[a.p] = [has |-> TRUE, w |-> FALSE, e |-> FALSE, r |-> NoDate]])]
+         ELSE IF a.v.y < 1000 /\ "yearpad" \notin ImplFixed THEN [out |-> "ok", t |-> ImplXsd([s1 EXCEPT !.date[a.p] = [has |-> TRUE, w |-> FALSE, e |-> FALSE, r |-> NoDate]])]
          ELSE [out |-> "ok", t |-> ImplXsd([s1 EXCEPT !.date[a.p] = [has |-> TRUE, w |-> TRUE, e |-> FALSE, r |-> Trunc(a.v)]])]
     [] a.op = "SetRev" ->
          IF a.kind = "int" /\ a.n >= 1 THEN [out |-> "ok", t |-> [s1 EXCEPT !.rev = [has |-> TRUE, x |-> a.n, r |-> a.n]]]
          \* isinstance(True, int) and True >= 1: str(True) = "True" is written, the reader maps non-integers to 0
-         ELSE IF a.kind = "bool" /\ a.n = 1 THEN [out |-> "ok", t |-> [s1 EXCEPT !.rev = [has |-> TRUE, x |-> -1, r |-> 0]]]
+         ELSE IF a.kind = "bool" /\ a.n = 1 /\ "boolrev" \notin ImplFixed THEN [out |-> "ok", t |-> [s1 EXCEPT !.rev = [has |-> TRUE, x |-> -1, r |-> 0]]]
          ELSE [out |-> "ValueError", t |-> s1]
     [] a.op = "SaveReopen" -> [out |-> "ok", t |-> s]
     [] a.op = "LoadLexical" ->
